@@ -37,8 +37,11 @@ Step(e) ==
                   ELSE {Dev("C15.tgoto", e.conv, [term |-> e.term, col |-> e.col, row |-> e.row, got |-> e.out])}>>
       [] e.ev = "TColor" ->
            LET want == ColorExpected(e.colors, e.fg, e.bg) IN
-           <<sta, IF ColorDecoded(e.out) = want THEN {}
-                  ELSE {Dev("C15.tcolor", "pen", [term |-> e.term, fg |-> e.fg, bg |-> e.bg, got |-> e.out])}>>
+           <<sta, (IF ColorDecoded(e.out) = want THEN {}
+                   ELSE {Dev("C15.tcolor", "pen", [term |-> e.term, fg |-> e.fg, bg |-> e.bg, got |-> e.out])})
+                  \* an elided component leaves no residue; the ECMA-48 family only (others are not lexed by Term)
+                  \cup (IF e.ecma /\ ~ColorClean(e.out)
+                        THEN {Dev("C15.tcolor", "residue", [term |-> e.term, fg |-> e.fg, bg |-> e.bg, got |-> e.out])} ELSE {})>>
       [] OTHER -> <<sta, {}>>
 
 Report(e, devs) == \A d \in devs : PrintT("@@V " \o ToJson(d @@ [l |-> l, ev |-> e.ev]))
